@@ -70,7 +70,7 @@ static unsigned long long n_calls = 0, n_tokens = 0, n_accept = 0, n_reject = 0,
 static unsigned long long by_type[32];
 
 static char before3[3] = {'1', 'A', '"'};
-static const char after_bytes[8] = {'1', 'A', '"', ')', '9', '\'', 'E', '2'};
+static char after_bytes[8] = {'1', 'A', '"', ')', '9', '\'', 'E', '2'};       /* [0] is also set to every byte of the recogniser's alphabet */
 
 /* run fn on input s/n in presentation mode; report cursor displacement, token relative to the start */
 typedef struct { int ret, type, off, len, disp, count; int ptr_null; } obs_t;
@@ -108,9 +108,13 @@ static void check_token(const rec_t * r, const char * s, int n) {
     int mode;
     rtok_t e = r->ref(s, n);
     char sig[128];
-    for (mode = 0; mode < 3; mode++) {
-        obs_t o = run_rec(r, s, n, mode);
+    for (mode = 0; mode < 3 + r->nalpha; mode++) {
+        /* placements 3.. : as placement 1 (input embedded, length = end of input) with each byte of the alphabet directly behind the input */
+        obs_t o;
         const char * why = NULL;
+        if (mode >= 3) after_bytes[0] = r->alpha[mode - 3];
+        o = run_rec(r, s, n, mode >= 3 ? 1 : mode);
+        after_bytes[0] = '1';
         if (o.disp < 0 || o.disp > n) why = "cursor-out-of-bounds";
         else if (o.ptr_null) why = "token-ptr-not-written";
         else if (o.type != TM(e.type)) why = "type";
